@@ -1,4 +1,7 @@
 #ifndef TFHE_TEST_ENVIRONMENT
+#ifdef TFHE_VERIF
+#include "tfhe_verif_hooks.h"
+#endif
 
 #include <cstdlib>
 #include <iostream>
@@ -15,6 +18,9 @@
 #else
 #undef EXPORT
 #define EXPORT
+#endif
+#ifndef TFHE_VERIF_EVENT
+#define TFHE_VERIF_EVENT(ev, obj, buf, a, b)
 #endif
 
 #if defined INCLUDE_ALL || defined INCLUDE_TGSW_INIT
@@ -337,6 +343,7 @@ tGswTorus32PolynomialDecompH(IntPolynomial *result, const TorusPolynomial *sampl
     }
 #endif
 
+    TFHE_VERIF_EVENT("DecompDirty", sample, buf, N, 0);
     //then, do the decomposition (in parallel)
     for (int32_t p = 0; p < l; ++p) {
         const int32_t decal = (32 - (p + 1) * Bgbit);
@@ -406,6 +413,7 @@ tGswTorus32PolynomialDecompH(IntPolynomial *result, const TorusPolynomial *sampl
         );
     }
 #endif
+    TFHE_VERIF_EVENT("DecompClean", sample, buf, N, 0);
 }
 #endif
 
